@@ -60,6 +60,7 @@ typedef struct {
   volatile int atomicfilter;  // atomics are choice points only at conflict-observed sites (like plain accesses)
   volatile int envall;    // offer environment deviations at every unconditional scheduling point (no reduction)
   volatile int nofilter;  // discovery pass: every instrumented access is a choice point
+  volatile int weakrmw;   // -weakrmw: RMWs without release semantics do not drain the store buffer (C11 view)
   volatile int focus;     // -focus: pre-emption alternatives only before operations on ranges declared with fmc_focus()
 } shared_t;
 
